@@ -195,22 +195,37 @@ inductive Op
   | get (dv : Nat) (src : Nat)       -- `self.dv = self.tv_src`
 deriving Repr
 
-/-- a linked variable: the `PacketVar` and its terminal's `pdo_assign` -/
+/-- a variable linked to a device's `TerminalVar`: the `PacketVar`, its terminal's `pdo_assign` in the current sync
+group, the identity of the `PacketVar` object (one object may be linked more than once) and the device -/
 structure Linked where
   var : Var
   assign : Assign
+  obj : Nat
+  dev : Nat
 deriving Repr
 
 structure PyState where
   data : List UInt8
   dvs : List Int          -- slow groups keep DeviceVars as plain Python attributes
+deriving DecidableEq, Repr
 
+/-- the accessor `PacketVar.get` builds, at start `s` -/
+def pyReadAt (sz : Size) (data : List UInt8) (s : Nat) : Int :=
+  match sz with
+  | .fmt f => pyGet f data s
+  | .bit n => if pyGetBit data s n then 1 else 0
+
+/-- the accessor `PacketVar.set` builds, at start `s` -/
+def pyStoreAt (sz : Size) (st : PyState) (s : Nat) (v : Int) : Option PyState :=
+  match sz with
+  | .fmt f => (pySet f st.data s v).map fun data => { st with data := data }
+  | .bit n => some { st with data := pySetBit st.data s n (v != 0) }
+
+/-- `PacketVar.get` with `start = self._start(device)` of the current sync group -/
 def pyRead (vars : List Linked) (st : PyState) (i : Nat) : Option Int := do
   let l ← vars[i]?
   let s ← start l.assign l.var
-  match l.var.size with
-  | .fmt f => pure (pyGet f st.data s)
-  | .bit n => pure (if pyGetBit st.data s n then 1 else 0)
+  pure (pyReadAt l.var.size st.data s)
 
 /-- the value of the right-hand side as Python sees it -/
 def pyValue (vars : List Linked) (st : PyState) : Src → Option Int
@@ -222,9 +237,7 @@ def pyValue (vars : List Linked) (st : PyState) : Src → Option Int
 def pyStore (vars : List Linked) (st : PyState) (d : Nat) (v : Int) : Option PyState := do
   let l ← vars[d]?
   let s ← start l.assign l.var
-  match l.var.size with
-  | .fmt f => (pySet f st.data s v).map fun data => { st with data := data }
-  | .bit n => some { st with data := pySetBit st.data s n (v != 0) }
+  pyStoreAt l.var.size st s v
 
 def pyStep (vars : List Linked) (st : PyState) : Op → Option PyState
   | .get j i => (pyRead vars st i).map fun v => { st with dvs := st.dvs.set j v }
@@ -238,6 +251,7 @@ def pyRun (vars : List Linked) (st : PyState) : List Op → Option PyState
 structure ProgState where
   frame : List UInt8
   dvs : List (Fmt × List UInt8)
+deriving DecidableEq, Repr
 
 /-- the register holding the source value, computed at width `long` -/
 def progReg (vars : List Linked) (st : ProgState) (long : Bool) : Src → Option Nat
@@ -287,4 +301,82 @@ def progRun (vars : List Linked) (st : ProgState) : List Op → Option ProgState
   | [] => some st
   | o :: os => (progStep vars st o).bind fun st' => progRun vars st' os
 
+/-! ### the Python path as the code really runs it: accessors cached on the `PacketVar` object
+
+`PacketVar.get` / `PacketVar.set` compute `start = self._start(device)` once, build a closure over `start` and
+`device`, store it on the object (`self.get = get`, `self.set = set`) and from then on only that closure runs
+(`assert instance is device`).  So the start a later access uses is the one of the sync group in which the object
+was first read resp. written, and a second device linked to the same object trips the assertion. -/
+
+inductive PyErr | structError | assertion | badIndex
+deriving DecidableEq, Repr
+
+/-- per `PacketVar` object: the (device, start) its cached `get` resp. `set` closure is bound to -/
+structure PvCache where
+  getter : Option (Nat × Nat)
+  setter : Option (Nat × Nat)
+deriving DecidableEq, Repr
+
+def PvCache.empty : PvCache := ⟨none, none⟩
+
+/-- one call through `self.get` / `self.set`: the start that is used and the binding afterwards -/
+def bindStart (c : Option (Nat × Nat)) (dev : Nat) (fresh : Option Nat) : Except PyErr (Nat × Option (Nat × Nat)) :=
+  match c with
+  | none =>
+    match fresh with
+    | some s => .ok (s, some (dev, s))
+    | none => .error .badIndex
+  | some (d, s) => if d == dev then .ok (s, c) else .error .assertion
+
+structure CState where
+  st : PyState
+  caches : List PvCache
+deriving DecidableEq, Repr
+
+def linkedAt (vars : List Linked) (i : Nat) : Except PyErr Linked :=
+  match vars[i]? with
+  | some l => .ok l
+  | none => .error .badIndex
+
+def getterStart (vars : List Linked) (caches : List PvCache) (i : Nat) : Except PyErr (Linked × Nat × List PvCache) := do
+  let l ← linkedAt vars i
+  let c := caches.getD l.obj PvCache.empty
+  let (s, g) ← bindStart c.getter l.dev (start l.assign l.var)
+  pure (l, s, caches.set l.obj { c with getter := g })
+
+def setterStart (vars : List Linked) (caches : List PvCache) (i : Nat) : Except PyErr (Linked × Nat × List PvCache) := do
+  let l ← linkedAt vars i
+  let c := caches.getD l.obj PvCache.empty
+  let (s, g) ← bindStart c.setter l.dev (start l.assign l.var)
+  pure (l, s, caches.set l.obj { c with setter := g })
+
+def pyValueC (vars : List Linked) (cs : CState) : Src → Except PyErr (Int × List PvCache)
+  | .var i => do
+    let (l, s, caches) ← getterStart vars cs.caches i
+    pure (pyReadAt l.var.size cs.st.data s, caches)
+  | .dv j =>
+    match cs.st.dvs[j]? with
+    | some v => .ok (v, cs.caches)
+    | none => .error .badIndex
+  | .const k => .ok (k, cs.caches)
+
+def pyStepC (vars : List Linked) (cs : CState) : Op → Except PyErr CState
+  | .get j i => do
+    let (v, caches) ← pyValueC vars cs (.var i)
+    pure ⟨{ cs.st with dvs := cs.st.dvs.set j v }, caches⟩
+  | .set d src => do
+    let (v, caches) ← pyValueC vars cs src           -- the right-hand side is evaluated first
+    let (l, s, caches) ← setterStart vars caches d
+    match pyStoreAt l.var.size cs.st s v with
+    | some st => pure ⟨st, caches⟩
+    | none => .error .structError
+
+def pyRunC (vars : List Linked) (cs : CState) : List Op → Except PyErr CState
+  | [] => .ok cs
+  | o :: os =>
+    match pyStepC vars cs o with
+    | .ok cs' => pyRunC vars cs' os
+    | .error e => .error e
+
 end Ebv.ProcVar
+
